@@ -17,7 +17,7 @@ EXPLANATION = (
     "id..=broadcast; (R-OVERLAP) overlaps equals 'the ranges intersect' on all orderings of the four bounds; (R-RANGE) "
     "a range converts to a network only when the network's range equals it; (R-ENDIAN) address <-> u32 conversions are "
     "big-endian both ways, so the derived byte-wise order is the numeric one. Together: lookup is longest-prefix match "
-    "over self-consistent subnet arithmetic. Not decided: CIDR text parsing, and the completeness half of the range "
+    "over self-consistent subnet arithmetic. (R-CIDR) cidr_to_ip is (address parsed from the text before the first '/', from_bitcount of the number after it) and from_cidr is Ipv4Net::new of that pair. Not decided: the std parsers themselves, and the completeness half of the range "
     "conversion (every aligned power-of-two block converts).")
 ASSUMPTIONS = ["the derived Ord of Ipv4Mask/Ipv4Address is the numeric order of the wrapped u32 / bytes", "BTreeMap iterates in key order"]
 
@@ -30,6 +30,7 @@ def run(ctx):
     g = cfg(oc)
     # ---------------------------------------------------------------- R-ORDER (semantic: netarith.check_obm_order)
     netarith.check_obm_order(ctx, "R-ORDER")
+    netarith.check_cidr(ctx, "R-CIDR")
     pc = prog.method("Obm", "partial_cmp", "PartialOrd")
     okk = len(K.calls_to(pc, oc.key)) == 1
     (ctx.ok if okk else ctx.bad)("R-ORDER", "R-ORDER:Obm::partial_cmp", pc.span, "partial_cmp delegates to cmp" if okk else "PartialOrd for Obm does not delegate to Ord::cmp")
